@@ -59,6 +59,20 @@ def run(ctx):
                 for entry in ("universal", "cached"):
                     extra.append(dict(entry=entry, limit=7000, nlp=nlp, fuzzy=False, thr=0, ponly=False, pboost=False, allplat=True, plats=[],
                                       nocross=False, boost=True, boostvar=bv, query="raw", raw=raw, corpus=corpus))
+    # queries long enough for the term cap to bite, with a common (low-IDF) boosted word after the first four
+    for raw, cap in [("delete remove find search create make show display copy number frobnicate widget", 0),
+                     ("delete remove find search number frobnicate widget", 5), ("copy move install run number widget frobnicate", 5),
+                     ("delete remove find search create make show display copy item number frobnicate", 0),
+                     ("delete remove find search frobnicate create make show display copy move install", 0),
+                     ("delete remove find search widget create make show display copy move install run", 0),
+                     ("delete remove find search create make frobnicate show display copy move install run list view", 0),
+                     ("delete remove find search frobnicate create make", 5), ("copy move install run widget list view", 5),
+                     ("delete remove find search frobnicate create", 4)]:
+        for nlp in (False, True):
+            for bv in (0, 1, 2, 3):
+                for entry in ("universal", "cached"):
+                    extra.append(dict(entry=entry, limit=7000, nlp=nlp, fuzzy=False, thr=0, ponly=False, pboost=False, allplat=True, plats=[],
+                                      nocross=False, boost=True, boostvar=bv, query="raw", raw=raw, corpus="mix", cap=cap))
     # boosts on real words of the shipped database
     tr, info, ok, rej = engine.run_cases(ctx, scen + extra, ["C13"])
     for x in rej:
